@@ -1536,3 +1536,103 @@ func init() {
 		},
 	}
 }
+
+func init() {
+	props["C17"] = &propDef{
+		ID:          "C17",
+		KernelLevel: true,
+		Anchored:    []string{"execution.", "storage.", "MaskedEqual", "MaskedGreater", "MaskedLess", "array).Get", "array).Set"},
+		Bounds: map[string]interface{}{"kernel_level": "every function of internal/execution/generic_*.go with a slice parameter whose name parses into (op, variant, dtype): symbolic slices of length 3 (4 with iterators: a contiguous and a lazily-transposed (2,2) access pattern), symbolic scalars, real FlatIterators; every cell of every argument compared with the type-generic table entry",
+			"dispatch_level": "public-API harnesses of C06/C11/C12/C08/C15 instantiated at EVERY element type the operation accepts, incl. iterator and incr variants (catches a reflect.Type case wired to the wrong kernel)",
+			"cross_type": "int8->16/32/64, int16->32/64, int32->64, uint likewise, float32->float64: + - x (and / % at 8->16 quick, all pairs with 60 s in thorough) agree after conversion when the wide result is representable; comparisons agree unconditionally",
+			"not_covered": "string kernels (ordering of symbolic strings is not encoded), reduce/map helper kernels taking function values (exercised through C08/C12), masked arg kernels (C15/C08)"},
+		Instances: func(tier string, seed int64) []Instance {
+			var out []Instance
+			n := 0
+			// dispatch level: every dtype x op x variant through the public API (contiguous + iterator path + incr)
+			for _, dt := range numDtypes {
+				for _, op := range arithOps {
+					for _, form := range []string{"TT", "TS", "ST"} {
+						for _, la := range []string{"C", "T"} {
+							for _, mode := range []string{"", "incr"} {
+								n++
+								if tier == "quick" && mode == "incr" && (n%2 == 0) {
+									continue
+								}
+								if mode == "incr" && (op == "MinBetween" || op == "MaxBetween") {
+									continue
+								}
+								out = append(out, mkInst("vhC06Bin", map[string]interface{}{"dtype": dt, "op": op, "form": form, "shape": []int{2, 2}, "la": la, "lb": "C", "api": "func", "mode": mode, "ld": "C"}, "dtype", "op", "form", "la", "mode"))
+							}
+						}
+					}
+				}
+			}
+			for _, dt := range allDtypes {
+				for _, op := range cmpOps {
+					for _, form := range []string{"TT", "TS", "ST"} {
+						for _, la := range []string{"C", "T"} {
+							for vi, v := range []string{"bool", "same"} {
+								n++
+								if tier == "quick" && (n+vi)%2 == 0 {
+									continue
+								}
+								if dt == "string" && (v == "same" || (op != "ElEq" && op != "ElNe")) {
+									continue
+								}
+								out = append(out, mkInst("vhC11Cmp", map[string]interface{}{"dtype": dt, "op": op, "form": form, "shape": []int{2, 2}, "la": la, "lb": "C", "api": "func", "variant": v, "ld": "C"}, "dtype", "op", "form", "la", "variant"))
+							}
+						}
+					}
+				}
+			}
+			for _, dt := range numDtypes {
+				for _, op := range unaryOps {
+					for _, la := range []string{"C", "T"} {
+						out = append(out, mkInst("vhC12Unary", map[string]interface{}{"dtype": dt, "op": op, "shape": []int{2, 2}, "la": la, "mode": "", "ld": "C"}, "dtype", "op", "la"))
+					}
+				}
+			}
+			for _, dt := range ordDtypes {
+				for _, op := range []string{"Sum", "Max", "Min"} {
+					for _, along := range [][]int{{0}, {1}, {0, 1}} {
+						in := mkInst("vhC08Reduce", map[string]interface{}{"dtype": dt, "op": op, "shape": []int{2, 3}, "along": along, "la": "C", "api": "method"}, "dtype", "op", "along")
+						in.Ring = op == "Sum" && (dt == "float32" || dt == "float64")
+						out = append(out, in)
+					}
+				}
+				for _, op := range []string{"Argmax", "Argmin"} {
+					for _, axis := range []int{-1, 0, 1} {
+						out = append(out, mkInst("vhC08Arg", map[string]interface{}{"dtype": dt, "op": op, "shape": []int{2, 3}, "axis": axis, "la": "C", "api": "method"}, "dtype", "op", "axis"))
+					}
+				}
+				for _, p := range []string{"Equal", "NotEqual", "Greater", "GreaterEqual", "Less", "LessEqual", "Inside", "Outside", "Values3"} {
+					for _, soft := range []int{0, 1} {
+						out = append(out, mkInst("vhC15Pred", map[string]interface{}{"dtype": dt, "pred": p, "shape": []int{3}, "soft": soft, "prior": 1, "rtol1": 1}, "dtype", "pred", "soft"))
+					}
+				}
+			}
+			// typed getters / setters for every element type (array.Get / array.Set / storage accessors)
+			for _, dt := range allDtypes {
+				out = append(out, mkInst("vhC01At", map[string]interface{}{"dtype": dt, "shape": []int{2, 2}, "variant": "row", "layout": "C", "arity_delta": 0}, "dtype"))
+				out = append(out, mkInst("vhC01SetAt", map[string]interface{}{"dtype": dt, "shape": []int{2, 2}, "variant": "row", "layout": "C", "arity_delta": 0}, "dtype"))
+			}
+			pairs := []string{"i8-i16", "i8-i32", "i8-i64", "i16-i32", "i16-i64", "i32-i64", "i32-int", "u8-u16", "u8-u32", "u8-u64", "u16-u32", "u16-u64", "u32-u64", "u32-uint"}
+			for _, p := range pairs {
+				for _, op := range []string{"Add", "Sub", "Mul", "Div", "Mod"} {
+					if (op == "Div" || op == "Mod") && tier == "quick" && !(p == "i8-i16" || p == "u8-u16" || p == "u8-u32" || p == "i8-i32") {
+						continue
+					}
+					out = append(out, mkInst("vhC17Cross", map[string]interface{}{"pair": p, "op": op}, "pair", "op"))
+				}
+			}
+			for _, op := range []string{"Add", "Sub", "Mul"} {
+				if tier == "quick" && op != "Add" {
+					continue // float32 vs float64 multiply / subtract lemmas need the 60 s limit of the thorough tier
+				}
+				out = append(out, mkInst("vhC17Cross", map[string]interface{}{"pair": "f32-f64", "op": op}, "pair", "op"))
+			}
+			return out
+		},
+	}
+}
